@@ -46,6 +46,15 @@
 #ifndef VP_MODE
 #define VP_MODE 0
 #endif
+/* VP_SYMKEYS 0 (default): keys are concrete (block j holds 16j+2, 16j+4, ...,
+   separator 16j+12) and seek targets range over 0..16*blocks+1, i.e. below,
+   on, between and above every key and separator.  two_level_iterator.c never
+   compares keys itself (only its children do), so its behaviour depends on
+   the keys only through the children's seek results.  VP_SYMKEYS 1: keys and
+   separators are symbolic bytes under the table invariants. */
+#ifndef VP_SYMKEYS
+#define VP_SYMKEYS 0
+#endif
 
 #if VP_S3 >= 0
 #define VP_NB 4
@@ -134,6 +143,22 @@ vp_live_total(void) {
   return t;
 }
 
+/* VP_OS<k>: set of operations allowed at step k (bit i = VP_OP_* i; 31 = all).
+   Excluded operations are removed from the program of that step. */
+#ifndef VP_OS0
+#define VP_OS0 31
+#endif
+#ifndef VP_OS1
+#define VP_OS1 31
+#endif
+#ifndef VP_OS2
+#define VP_OS2 31
+#endif
+#ifndef VP_OS3
+#define VP_OS3 31
+#endif
+static const int vp_os[8] = { VP_OS0, VP_OS1, VP_OS2, VP_OS3, 31, 31, 31, 31 };
+
 static void
 vp_check(void) {
   int valid = ldb_twoiter_valid(vp_ti);
@@ -170,37 +195,35 @@ vp_check(void) {
 }
 
 static void
-vp_apply(int op, const uint8_t *t) {
+vp_apply(int op, int mask, const uint8_t *t) {
   ldb_slice_t target;
 
-  switch (op) {
-    case VP_OP_FIRST:
+  /* mask (a constant per step) removes the excluded operations from the
+     program, not only from the models */
+  if ((mask & (1 << VP_OP_FIRST)) && op == VP_OP_FIRST) {
       ldb_twoiter_first(vp_ti);
       vp_cur = vp_ref_first(&vp_ref);
-      break;
-    case VP_OP_LAST:
+  } else if ((mask & (1 << VP_OP_LAST)) && op == VP_OP_LAST) {
       ldb_twoiter_last(vp_ti);
       vp_cur = vp_ref_last(&vp_ref);
-      break;
-    case VP_OP_SEEK:
+  } else if ((mask & (1 << VP_OP_SEEK)) && op == VP_OP_SEEK) {
       target.data = (uint8_t *)t;
       target.size = 1;
       target.alloc = 0;
       ldb_twoiter_seek(vp_ti, &target);
       vp_cur = vp_ref_seek_ge(&vp_ref, t, 1);
-      break;
-    case VP_OP_NEXT:
+  } else if ((mask & (1 << VP_OP_NEXT)) && op == VP_OP_NEXT) {
       if (vp_cur < 0)
         return; /* REQUIRES: valid */
       ldb_twoiter_next(vp_ti);
       vp_cur = vp_ref_next(&vp_ref, vp_cur);
-      break;
-    default:
+  } else if ((mask & (1 << VP_OP_PREV)) && op == VP_OP_PREV) {
       if (vp_cur < 0)
         return;
       ldb_twoiter_prev(vp_ti);
       vp_cur = vp_ref_prev(&vp_ref, vp_cur);
-      break;
+  } else {
+    return;
   }
 
   vp_check();
@@ -237,7 +260,11 @@ harness(void) {
     vp_B[j]->vcap = 1;
 
     for (i = 0; i < vp_bn[j]; i++) {
+#if VP_SYMKEYS
       vp_kb[j][i][0] = vp_u8();
+#else
+      vp_kb[j][i][0] = (uint8_t)(16 * j + 2 * i + 2);
+#endif
       vp_vb[j][i][0] = (uint8_t)(0x10 * (j + 1) + i);
       vp_arr_add(vp_B[j], vp_kb[j][i], 1, vp_vb[j][i], 1);
       vp_ref_add(&vp_ref, vp_kb[j][i], 1, vp_vb[j][i], 1, 1);
@@ -245,7 +272,11 @@ harness(void) {
 
     vp_B[j]->status = vp_sym_status();
 
+#if VP_SYMKEYS
     vp_sep[j][0] = vp_u8();
+#else
+    vp_sep[j][0] = (uint8_t)(16 * j + 12);
+#endif
     vp_hnd[j][0] = (uint8_t)j;
     vp_arr_add(&vp_I, vp_sep[j], 1, vp_hnd[j], 1);
 
@@ -278,9 +309,13 @@ harness(void) {
     for (k = 0; k < VP_K; k++) {
       op = vp_u8();
       VP_ASSUME(op <= VP_OP_PREV);
+      VP_ASSUME((vp_os[k] >> op) & 1);
       t[0] = vp_u8();
+#if !VP_SYMKEYS
+      VP_ASSUME(t[0] <= 16 * VP_NB + 1);
+#endif
       before = vp_creations;
-      vp_apply(op, t);
+      vp_apply(op, vp_os[k], t);
     }
 
     if (vp_cur >= 0) {
@@ -311,12 +346,12 @@ harness(void) {
   {
     int k, count = 0;
 
-    vp_apply(VP_OP_FIRST, NULL);
+    vp_apply(VP_OP_FIRST, 31, NULL);
 
     for (k = 0; k < VP_TOTAL; k++) {
       if (vp_cur >= 0) {
         count++;
-        vp_apply(VP_OP_NEXT, NULL);
+        vp_apply(VP_OP_NEXT, 31, NULL);
       }
     }
 
@@ -324,12 +359,12 @@ harness(void) {
     VP_ASSERT(count == VP_TOTAL, "forward scan yields every entry once");
 
     count = 0;
-    vp_apply(VP_OP_LAST, NULL);
+    vp_apply(VP_OP_LAST, 31, NULL);
 
     for (k = 0; k < VP_TOTAL; k++) {
       if (vp_cur >= 0) {
         count++;
-        vp_apply(VP_OP_PREV, NULL);
+        vp_apply(VP_OP_PREV, 31, NULL);
       }
     }
 
